@@ -6,8 +6,693 @@ import CfrVerif.Props.C01
 /-!
 # Assembly of the C02 argument: cumulative regrets of the vanilla run, the average strategy,
 and the zero-sum sandwich
+
+1. `Inv g σs s` : the state `s` of an unsampled vanilla run that has read the profiles `σs`
+   holds, in every accumulator cell, the sum over `σs` of the instantaneous counterfactual
+   regrets (`regAdd`) / reach-weighted strategy masses (`stratAdd`); `vanillaIter_step` is one
+   iteration, `loop_final` the whole loop (any threshold).
+2. `regret_side` : for every valid own strategy `τ` the summed gain of `τ` over the iterates is
+   at most `T/2` times the reported bound.
+3. `avg_side` : the returned average strategy is realisation-equivalent to the uniform mixture of
+   the iterates.
+4. `bound_dominates` : the zero-sum sandwich.
 -/
 set_option linter.unusedSectionVars false
+set_option linter.unusedVariables false
 namespace Cfr
+noncomputable section
 
+/-! ## vanilla parameters: the discounts are identities -/
+
+theorem discountCumRegret_vanilla (it : ℕ) (R : List ℝ) :
+    discountCumRegret RegretParams.vanilla it R = R := by
+  simp only [discountCumRegret, RegretParams.vanilla, genDiscount, mul_one]
+  conv_rhs => rw [← List.map_id R]
+  apply List.map_congr_left
+  intro r _
+  split_ifs <;> rfl
+
+theorem discountAverageStrat_vanilla (it : ℕ) (v : List ℝ) :
+    discountAverageStrat RegretParams.vanilla it v = v := by
+  simp [discountAverageStrat, RegretParams.vanilla]
+
+/-- `advance` of one infoset with vanilla parameters: only the current strategy changes -/
+def advV (x : InfoSt ℝ) : InfoSt ℝ := ⟨x.cumRegret, x.cumStrat, regretMatch (.fin 0) x.cumRegret⟩
+
+theorem advance_vanilla (it itAvg : ℕ) (x : InfoSt ℝ) :
+    x.advance RegretParams.vanilla it itAvg = (advV x, cumRegretBound it x.cumRegret) := by
+  simp only [InfoSt.advance, discountCumRegret_vanilla, discountAverageStrat_vanilla]
+  rfl
+
+/-- the per-player bound: the per-infoset bounds summed over the table -/
+def boundSum (it : ℕ) (xs : List (InfoSt ℝ)) : ℝ :=
+  (xs.map (fun x => cumRegretBound it x.cumRegret)).sum
+
+theorem advanceAll_vanilla (it itAvg : ℕ) : ∀ (xs : List (InfoSt ℝ)) (acc : ℝ),
+    advanceAll RegretParams.vanilla it itAvg xs acc = (xs.map advV, acc + boundSum it xs)
+  | [], acc => by simp [advanceAll, boundSum]
+  | x :: xs, acc => by
+    simp only [advanceAll, advance_vanilla, advanceAll_vanilla it itAvg xs, boundSum,
+      List.map_cons, List.sum_cons]
+    rw [add_assoc]
+
+theorem boundSum_advV (it : ℕ) (xs : List (InfoSt ℝ)) :
+    boundSum it (xs.map advV) = boundSum it xs := by
+  simp [boundSum, List.map_map, Function.comp_def, advV]
+
+theorem boundSum_nonneg (it : ℕ) (xs : List (InfoSt ℝ)) : 0 ≤ boundSum it xs := by
+  unfold boundSum
+  apply List.sum_nonneg
+  intro v hv
+  obtain ⟨x, _, rfl⟩ := List.mem_map.mp hv
+  exact cumRegretBound_nonneg _ _
+
+/-! ## the profile a state reads; reading the table -/
+
+/-- the profile a traversal of the state `s` reads -/
+def SolveSt.profile (s : SolveSt ℝ) : Profile ℝ := fun one => (s.get one).map (fun x => x.strat)
+
+theorem ctxOf_profile (g : Game ℝ) (s : SolveSt ℝ) (sampled : Bool) (draw : DrawFn ℝ) (pass : ℕ) :
+    CtxOf ⟨g.chance, sampled, s.strat, draw, pass⟩ s.profile := by
+  intro one i
+  simp only [SolveSt.strat, SolveSt.profile, Strat.at, List.getD_eq_getElem?_getD,
+    List.getElem?_map]
+  cases (s.get one)[i]? <;> rfl
+
+theorem profile_at (s : SolveSt ℝ) (me : Bool) (I : ℕ) (x : InfoSt ℝ)
+    (hx : (s.get me)[I]? = some x) : (s.profile me).at I = x.strat := by
+  simp [SolveSt.profile, Strat.at, List.getD_eq_getElem?_getD, List.getElem?_map, hx]
+
+theorem tableOK_get : ∀ (es : List PInfo) (xs : List (InfoSt ℝ)), TableOK es xs →
+    ∀ (I : ℕ) (x : InfoSt ℝ), xs[I]? = some x →
+      ∃ e, es[I]? = some e ∧ InfoOK e.actions.length x
+  | [], [], _, I, x, hx => by simp at hx
+  | e :: es, y :: xs, h, 0, x, hx => by
+    simp only [TableOK] at h
+    simp only [List.getElem?_cons_zero, Option.some.injEq] at hx
+    subst hx
+    exact ⟨e, by simp, h.1⟩
+  | e :: es, y :: xs, h, I + 1, x, hx => by
+    simp only [TableOK] at h
+    simp only [List.getElem?_cons_succ] at hx ⊢
+    exact tableOK_get es xs h.2 I x hx
+  | [], _ :: _, h, _, _, _ => by simp [TableOK] at h
+  | _ :: _, [], h, _, _, _ => by simp [TableOK] at h
+
+theorem tableOK_length : ∀ (es : List PInfo) (xs : List (InfoSt ℝ)), TableOK es xs →
+    xs.length = es.length
+  | [], [], _ => rfl
+  | e :: es, y :: xs, h => by
+    simp only [TableOK] at h
+    simp [tableOK_length es xs h.2]
+  | [], _ :: _, h => by simp [TableOK] at h
+  | _ :: _, [], h => by simp [TableOK] at h
+
+theorem tableOK_profile : ∀ (es : List PInfo) (xs : List (InfoSt ℝ)), TableOK es xs →
+    IsStrat (xs.map (fun x => x.strat)) ∧
+      (xs.map (fun x => x.strat)).map List.length = es.map (fun i => i.actions.length)
+  | [], [], _ => by simp [IsStrat]
+  | e :: es, x :: xs, h => by
+    simp only [TableOK] at h
+    obtain ⟨h1, h2⟩ := tableOK_profile es xs h.2
+    constructor
+    · intro v hv
+      rcases List.mem_cons.mp hv with rfl | hv
+      · exact h.1.dist
+      · exact h1 v hv
+    · simp only [List.map_cons, h.1.lenσ]
+      rw [← h2]
+  | [], _ :: _, h => by simp [TableOK] at h
+  | _ :: _, [], h => by simp [TableOK] at h
+
+theorem stOK_profile (g : Game ℝ) (s : SolveSt ℝ) (h : StOK g s) : ProfileOK g s.profile :=
+  fun me => tableOK_profile _ _ (h me)
+
+/-- an entry of the table of a well-formed state -/
+theorem stOK_get (g : Game ℝ) (s : SolveSt ℝ) (h : StOK g s) (me : Bool) (I : ℕ) (x : InfoSt ℝ)
+    (hx : (s.get me)[I]? = some x) :
+    I < (g.infos me).length ∧ InfoOK (nActsOf g me I) x := by
+  obtain ⟨e, he, hok⟩ := tableOK_get _ _ (h me) I x hx
+  refine ⟨(List.getElem?_eq_some_iff.mp he).1, ?_⟩
+  simpa [nActsOf, List.getD_eq_getElem?_getD, he] using hok
+
+theorem stOK_length (g : Game ℝ) (s : SolveSt ℝ) (h : StOK g s) (me : Bool) :
+    (s.get me).length = (g.infos me).length := tableOK_length _ _ (h me)
+
+/-! ## the view of a well-formed game -/
+
+/-- the game as `me` sees it when the profile `σ` is played -/
+abbrev viewOf (g : Game ℝ) (σ : Profile ℝ) (me : Bool) : V ℝ := view g.chance (σ (!me)) me g.root
+
+theorem view_ok (g : Game ℝ) (hg : GameWF g) (me : Bool) (σo : Strat ℝ) (h1 : IsStrat σo)
+    (h2 : FitsGame g (!me) σo) :
+    VOK (g.infos me).length (nActsOf g me) (view g.chance σo me g.root) :=
+  view_VOK g (fun ps hps p hp => ((hg.chancePos ps hps).1 p hp).le) me σo h1 h2 g.root hg.nodes
+
+theorem viewOf_ok (g : Game ℝ) (hg : GameWF g) (σ : Profile ℝ) (hσ : ProfileOK g σ) (me : Bool) :
+    VOK (g.infos me).length (nActsOf g me) (viewOf g σ me) :=
+  view_ok g hg me _ (hσ (!me)).1 (hσ (!me)).2
+
+theorem profile_stratOK (g : Game ℝ) (σ : Profile ℝ) (hσ : ProfileOK g σ) (me : Bool) :
+    StratOK (g.infos me).length (nActsOf g me) (σ me) :=
+  (stratOK_iff g me (σ me)).mpr (hσ me)
+
+/-! ## the invariant of the unsampled vanilla run -/
+
+/-- after reading the profiles `σs` (latest first) every accumulator cell holds the sum of the
+textbook quantities of those profiles -/
+structure Inv (g : Game ℝ) (σs : List (Profile ℝ)) (s : SolveSt ℝ) : Prop where
+  ok : StOK g s
+  profs : ∀ σ ∈ σs, ProfileOK g σ
+  reg : ∀ (me : Bool) (I : ℕ) (x : InfoSt ℝ), (s.get me)[I]? = some x → ∀ a, a < x.cumRegret.length →
+    x.cumRegret.getD a 0 = (σs.map (fun σ => regAdd (σ me) I a (viewOf g σ me) 1)).sum
+  str : ∀ (me : Bool) (I : ℕ) (x : InfoSt ℝ), (s.get me)[I]? = some x → ∀ a, a < x.cumStrat.length →
+    x.cumStrat.getD a 0 = (σs.map (fun σ => stratAdd (σ me) I a (viewOf g σ me) 1)).sum
+
+theorem inv_init (g : Game ℝ) (hg : GameWF g) : Inv g [] (SolveSt.init g) := by
+  refine ⟨stOK_init g hg, by simp, ?_, ?_⟩
+  · intro me I x hx a ha
+    cases me <;>
+      simp only [SolveSt.init, SolveSt.get, if_true, Bool.false_eq_true, if_false,
+        List.getElem?_map] at hx <;>
+      (obtain ⟨e, _, rfl⟩ := Option.map_eq_some_iff.mp hx
+       simp only [InfoSt.new, List.getD_eq_getElem?_getD, List.getElem?_replicate, List.sum_nil,
+         List.map_nil]
+       split_ifs <;> rfl)
+  · intro me I x hx a ha
+    cases me <;>
+      simp only [SolveSt.init, SolveSt.get, if_true, Bool.false_eq_true, if_false,
+        List.getElem?_map] at hx <;>
+      (obtain ⟨e, _, rfl⟩ := Option.map_eq_some_iff.mp hx
+       simp only [InfoSt.new, List.getD_eq_getElem?_getD, List.getElem?_replicate, List.sum_nil,
+         List.map_nil]
+       split_ifs <;> rfl)
+
+/-- the shape of one unsampled vanilla iteration with vanilla parameters -/
+theorem vanillaIter_vanilla_eq (g : Game ℝ) (draw : DrawFn ℝ) (it : ℕ) (s : SolveSt ℝ)
+    (log : List (DrawRec ℝ)) :
+    vanillaIter g false RegretParams.vanilla draw it s log =
+      (let r := vrec ⟨g.chance, false, s.strat, draw, it - 1⟩ g.root 1 1 1 { log := log }
+       let s' := s.applyEffs r.2.1
+       (⟨(s'.get true).map advV, (s'.get false).map advV⟩,
+        boundSum it (s'.get true), boundSum it (s'.get false), r.2.2.log)) := by
+  simp only [vanillaIter, advanceAll_vanilla, zero_add]
+  rfl
+
+theorem get_mk (a b : List (InfoSt ℝ)) (me : Bool) :
+    (SolveSt.mk a b).get me = if me then a else b := rfl
+
+/-- what an entry of the table after `applyEffs` and `advance` looks like -/
+theorem applyEffs_advV_cell (s : SolveSt ℝ) (es : List (Eff ℝ)) (me : Bool) (I : ℕ) (x'' : InfoSt ℝ)
+    (h : (((s.applyEffs es).get me).map advV)[I]? = some x'') :
+    ∃ x, (s.get me)[I]? = some x ∧
+      x''.cumRegret.length = x.cumRegret.length ∧ x''.cumStrat.length = x.cumStrat.length ∧
+      (∀ a, a < x.cumRegret.length →
+        x''.cumRegret.getD a 0 = x.cumRegret.getD a 0 + effSum es me I Slot.regret a) ∧
+      (∀ a, a < x.cumStrat.length →
+        x''.cumStrat.getD a 0 = x.cumStrat.getD a 0 + effSum es me I Slot.strat a) := by
+  obtain ⟨hl, hc⟩ := applyEffs_cell s es me
+  rw [List.getElem?_map] at h
+  obtain ⟨x', hx', rfl⟩ := Option.map_eq_some_iff.mp h
+  have hI : I < (s.get me).length := by
+    rw [← hl]; exact (List.getElem?_eq_some_iff.mp hx').1
+  obtain ⟨x2, g2, _, r2, t2, cr2, cs2⟩ := hc I _ (List.getElem?_eq_getElem hI)
+  rw [hx'] at g2
+  obtain rfl : x' = x2 := by simpa using g2
+  exact ⟨_, List.getElem?_eq_getElem hI, r2, t2, cr2, cs2⟩
+
+/-- **one iteration**: the invariant is extended by the profile the iteration read, and the
+reported bounds are the sums of the per-infoset bounds of the new cumulative regrets -/
+theorem vanillaIter_step (g : Game ℝ) (hg : GameWF g) (draw : DrawFn ℝ) (it : ℕ) (s : SolveSt ℝ)
+    (log : List (DrawRec ℝ)) (σs : List (Profile ℝ)) (h : Inv g σs s) :
+    Inv g (s.profile :: σs) (vanillaIter g false RegretParams.vanilla draw it s log).1 ∧
+    (vanillaIter g false RegretParams.vanilla draw it s log).2.1
+      = boundSum it ((vanillaIter g false RegretParams.vanilla draw it s log).1.get true) ∧
+    (vanillaIter g false RegretParams.vanilla draw it s log).2.2.1
+      = boundSum it ((vanillaIter g false RegretParams.vanilla draw it s log).1.get false) := by
+  have hok' := (vanillaIter_ok g false RegretParams.vanilla (le_refl (0 : ℝ)) draw it s log h.ok).1
+  have hσ : ProfileOK g s.profile := stOK_profile g s h.ok
+  rw [vanillaIter_vanilla_eq] at hok' ⊢
+  simp only [] at hok' ⊢
+  have hctx := ctxOf_profile g s false draw (it - 1)
+  generalize hcd : (⟨g.chance, false, s.strat, draw, it - 1⟩ : VCtx ℝ) = c at hctx hok' ⊢
+  have hch : c.ch = g.chance := by rw [← hcd]
+  have hsm : c.sampled = false := by rw [← hcd]
+  refine ⟨⟨hok', ?_, ?_, ?_⟩, ?_, ?_⟩
+  · intro σ hm
+    rcases List.mem_cons.mp hm with rfl | hm
+    · exact hσ
+    · exact h.profs σ hm
+  · intro me I x'' hx'' a ha
+    have hx2 : (((s.applyEffs (vrec c g.root 1 1 1 { log := log }).2.1).get me).map advV)[I]?
+        = some x'' := by
+      cases me <;> exact hx''
+    obtain ⟨x, hx, r2, _, cr2, _⟩ := applyEffs_advV_cell s _ me I x'' hx2
+    obtain ⟨hI, hinfo⟩ := stOK_get g s h.ok me I x hx
+    rw [r2] at ha
+    have hat := profile_at s me I x hx
+    have hreg := vrec_full_regret c hsm s.profile hctx me g.root 1 1 1 { log := log } I a
+      (by rw [hat, hinfo.lenσ, ← hinfo.lenR]; exact ha)
+      (by
+        rw [hch]
+        exact VOK.ownFits _ _ _ (profile_stratOK g _ hσ me).2.1 _ (viewOf_ok g hg _ hσ me))
+    rw [cr2 a ha, hreg, h.reg me I x hx a ha, hch, List.map_cons, List.sum_cons]
+    have e1 : (1 : ℝ) * (if me = true then 1 else 1) = 1 := by simp
+    rw [e1, add_comm]
+  · intro me I x'' hx'' a ha
+    have hx2 : (((s.applyEffs (vrec c g.root 1 1 1 { log := log }).2.1).get me).map advV)[I]?
+        = some x'' := by
+      cases me <;> exact hx''
+    obtain ⟨x, hx, _, t2, _, cs2⟩ := applyEffs_advV_cell s _ me I x'' hx2
+    rw [t2] at ha
+    have hstr := vrec_full_strat c hsm s.profile hctx me g.root 1 1 1 { log := log } I a
+      (by
+        rw [hch]
+        exact VOK.natFits _ _ _ (viewOf_ok g hg _ hσ me))
+    rw [cs2 a ha, hstr, h.str me I x hx a ha, hch, List.map_cons, List.sum_cons]
+    have e1 : (if me = true then (1 : ℝ) else 1) = 1 := by simp
+    rw [e1, add_comm]
+  · exact (boundSum_advV _ _).symm
+  · exact (boundSum_advV _ _).symm
+
+/-! ## the loop -/
+
+/-- what a finished run returns: the averages and the bounds of a state that satisfies the
+invariant for a non-empty list of profiles -/
+def Final (g : Game ℝ) (o : SolveOut ℝ) : Prop :=
+  ∃ (σs : List (Profile ℝ)) (s : SolveSt ℝ), σs ≠ [] ∧ Inv g σs s ∧
+    o.regOne = .fin (boundSum σs.length (s.get true)) ∧
+    o.regTwo = .fin (boundSum σs.length (s.get false)) ∧
+    o.stratOne = s.avg true ∧ o.stratTwo = s.avg false
+
+theorem loop_final (g : Game ℝ) (hg : GameWF g) (draw : DrawFn ℝ) (thr : Option (Ext ℝ)) :
+    ∀ (n it : ℕ) (s : SolveSt ℝ) (r1 r2 : Ext ℝ) (log : List (DrawRec ℝ))
+      (σs : List (Profile ℝ)), σs.length + 1 = it → Inv g σs s →
+      (σs ≠ [] → r1 = .fin (boundSum σs.length (s.get true)) ∧
+        r2 = .fin (boundSum σs.length (s.get false))) →
+      (0 < n ∨ σs ≠ []) →
+      Final g (solveLoop (vanillaIter g false RegretParams.vanilla draw) thr n it s r1 r2 log) := by
+  intro n
+  induction n with
+  | zero =>
+    intro it s r1 r2 log σs hit hinv hr hne
+    have hne' : σs ≠ [] := by
+      rcases hne with h | h
+      · exact absurd h (lt_irrefl 0)
+      · exact h
+    obtain ⟨e1, e2⟩ := hr hne'
+    simp only [solveLoop]
+    exact ⟨σs, s, hne', hinv, e1, e2, rfl, rfl⟩
+  | succ n ih =>
+    intro it s r1 r2 log σs hit hinv hr _
+    obtain ⟨hinv', b1, b2⟩ := vanillaIter_step g hg draw it s log σs hinv
+    have hlen : (s.profile :: σs).length = it := by simp [hit]
+    rw [wf_solveLoop_succ]
+    split_ifs with hb
+    · refine ⟨s.profile :: σs, _, by simp, hinv', ?_, ?_, rfl, rfl⟩
+      · rw [hlen]; exact congrArg Ext.fin b1
+      · rw [hlen]; exact congrArg Ext.fin b2
+    · exact ih (it + 1) _ _ _ _ (s.profile :: σs) (by simp [hit]) hinv'
+        (fun _ => ⟨by rw [hlen]; exact congrArg Ext.fin b1, by rw [hlen]; exact congrArg Ext.fin b2⟩)
+        (Or.inr (by simp))
+
+/-- every unsampled vanilla solve with a positive budget ends in a `Final` state -/
+theorem solve_final (g : Game ℝ) (hg : GameWF g) (draw : DrawFn ℝ) (T : ℕ) (hT : 0 < T)
+    (thr : Option (Ext ℝ)) :
+    Final g (solveVanillaSingle g false RegretParams.vanilla draw T thr) := by
+  unfold solveVanillaSingle solveWith
+  exact loop_final g hg draw thr T 1 _ _ _ _ [] rfl (inv_init g hg) (fun h => absurd rfl h)
+    (Or.inl hT)
+
+/-! ## sums over the list of iterates -/
+
+theorem lmsum_add {β : Type} (l : List β) (f g : β → ℝ) :
+    (l.map (fun x => f x + g x)).sum = (l.map f).sum + (l.map g).sum := by
+  induction l with
+  | nil => simp
+  | cons x l ih => simp only [List.map_cons, List.sum_cons, ih]; ring
+
+theorem lmsum_sub {β : Type} (l : List β) (f g : β → ℝ) :
+    (l.map (fun x => f x - g x)).sum = (l.map f).sum - (l.map g).sum := by
+  induction l with
+  | nil => simp
+  | cons x l ih => simp only [List.map_cons, List.sum_cons, ih]; ring
+
+theorem lmsum_neg {β : Type} (l : List β) (f : β → ℝ) :
+    (l.map (fun x => - f x)).sum = - (l.map f).sum := by
+  induction l with
+  | nil => simp
+  | cons x l ih => simp only [List.map_cons, List.sum_cons, ih]; ring
+
+theorem lmsum_mul_left {β : Type} (l : List β) (c : ℝ) (f : β → ℝ) :
+    (l.map (fun x => c * f x)).sum = c * (l.map f).sum := by
+  induction l with
+  | nil => simp
+  | cons x l ih => simp only [List.map_cons, List.sum_cons, ih]; ring
+
+theorem lmsum_congr {β : Type} (l : List β) (f g : β → ℝ) (h : ∀ x ∈ l, f x = g x) :
+    (l.map f).sum = (l.map g).sum := by
+  rw [List.map_congr_left h]
+
+theorem lmsum_wsum {β : Type} (N : ℕ) (nActs : ℕ → ℕ) (hist : ℕ → Hist) (τ : Strat ℝ)
+    (l : List β) (F : β → ℕ → ℕ → ℝ) :
+    (l.map (fun x => wsum N nActs hist τ (F x))).sum
+      = wsum N nActs hist τ (fun I a => (l.map (fun x => F x I a)).sum) := by
+  induction l with
+  | nil => simp [wsum_zero]
+  | cons x l ih =>
+    simp only [List.map_cons, List.sum_cons, ih]
+    rw [← wsum_add]
+
+theorem lmsum_range {β : Type} (n : ℕ) (l : List β) (F : β → ℕ → ℝ) :
+    ∑ a ∈ Finset.range n, (l.map (fun x => F x a)).sum
+      = (l.map (fun x => ∑ a ∈ Finset.range n, F x a)).sum := by
+  induction l with
+  | nil => simp
+  | cons x l ih =>
+    simp only [List.map_cons, List.sum_cons, Finset.sum_add_distrib, ih]
+
+theorem wsum_congr (N : ℕ) (nActs : ℕ → ℕ) (hist : ℕ → Hist) (τ : Strat ℝ) (f g : ℕ → ℕ → ℝ)
+    (h : ∀ I, I < N → ∀ a, a < nActs I → f I a = g I a) :
+    wsum N nActs hist τ f = wsum N nActs hist τ g := by
+  unfold wsum
+  apply Finset.sum_congr rfl
+  intro I hI
+  congr 1
+  apply Finset.sum_congr rfl
+  intro a ha
+  rw [h I (Finset.mem_range.mp hI) a (Finset.mem_range.mp ha)]
+
+theorem sum_range_map_getD {β : Type} (d : β) (F : β → ℝ) : ∀ (l : List β),
+    ∑ i ∈ Finset.range l.length, F (l.getD i d) = (l.map F).sum
+  | [] => by simp
+  | x :: l => by
+    have ih := sum_range_map_getD d F l
+    simp only [List.length_cons, List.map_cons, List.sum_cons]
+    rw [Finset.sum_range_succ', ← ih]
+    simp [add_comm]
+
+/-! ## the regret side -/
+
+/-- the cumulative regret vector of infoset `I` in a table -/
+def crOf (xs : List (InfoSt ℝ)) (I : ℕ) : List ℝ := (xs.map (fun x => x.cumRegret)).getD I []
+
+theorem crOf_get (xs : List (InfoSt ℝ)) (I : ℕ) (x : InfoSt ℝ) (hx : xs[I]? = some x) :
+    crOf xs I = x.cumRegret := by
+  simp [crOf, List.getD_eq_getElem?_getD, List.getElem?_map, hx]
+
+/-- `Σ_I max(max_a R(I,a), 0)` -/
+def clampSum (xs : List (InfoSt ℝ)) : ℝ := (xs.map (fun x => fmax (maxD 0 x.cumRegret) 0)).sum
+
+theorem boundSum_eq (it : ℕ) (xs : List (InfoSt ℝ)) :
+    boundSum it xs = 2 / (it : ℝ) * clampSum xs := by
+  unfold boundSum clampSum
+  rw [← lmsum_mul_left]
+  apply lmsum_congr
+  intro x _
+  simp only [cumRegretBound, two]
+  ring
+
+theorem clampSum_eq_range (xs : List (InfoSt ℝ)) :
+    clampSum xs = ∑ I ∈ Finset.range xs.length, fmax (maxD 0 (crOf xs I)) 0 := by
+  have := sum_range_map_getD ([] : List ℝ) (fun R => fmax (maxD 0 R) 0)
+    (xs.map (fun x => x.cumRegret))
+  simp only [List.length_map, List.map_map] at this
+  unfold clampSum crOf
+  rw [this]
+  rfl
+
+/-- **regret side**: the summed gain of any valid own strategy over the iterates is at most
+the sum of the clamped maxima of the cumulative regrets -/
+theorem regret_side (g : Game ℝ) (hg : GameWF g) (σs : List (Profile ℝ)) (s : SolveSt ℝ)
+    (h : Inv g σs s) (me : Bool) (τ : Strat ℝ) (hτ1 : IsStrat τ) (hτ2 : FitsGame g me τ) :
+    (σs.map (fun σ => evV τ (viewOf g σ me) - evV (σ me) (viewOf g σ me))).sum
+      ≤ clampSum (s.get me) := by
+  obtain ⟨hist, hpr, _⟩ := hg.recall me
+  have hτ : StratOK (g.infos me).length (nActsOf g me) τ := (stratOK_iff g me τ).mpr ⟨hτ1, hτ2⟩
+  have hlen := stOK_length g s h.ok me
+  -- step 1: performance-difference decomposition, iterate by iterate
+  have e1 : (σs.map (fun σ => evV τ (viewOf g σ me) - evV (σ me) (viewOf g σ me))).sum
+      = (σs.map (fun σ => wsum (g.infos me).length (nActsOf g me) hist τ
+          (fun I a => regAdd (σ me) I a (viewOf g σ me) 1))).sum := by
+    apply lmsum_congr
+    intro σ hσ
+    exact perf_decomp _ _ hist τ (σ me) hτ _ (viewOf_ok g hg σ (h.profs σ hσ) me)
+      (view_PRV g.chance _ me hist g.root [] hpr)
+  -- step 2/3: exchange the sums, read the accumulators
+  have e2 : wsum (g.infos me).length (nActsOf g me) hist τ
+        (fun I a => (σs.map (fun σ => regAdd (σ me) I a (viewOf g σ me) 1)).sum)
+      = wsum (g.infos me).length (nActsOf g me) hist τ
+        (fun I a => (crOf (s.get me) I).getD a 0) := by
+    apply wsum_congr
+    intro I hI a ha
+    have hI' : I < (s.get me).length := by rw [hlen]; exact hI
+    have hx := List.getElem?_eq_getElem hI'
+    obtain ⟨_, hinfo⟩ := stOK_get g s h.ok me I _ hx
+    rw [crOf_get _ _ _ hx, h.reg me I _ hx a (by rw [hinfo.lenR]; exact ha)]
+  rw [e1, lmsum_wsum, e2, clampSum_eq_range, hlen]
+  unfold wsum
+  apply Finset.sum_le_sum
+  intro I hI
+  have hI := Finset.mem_range.mp hI
+  have hI' : I < (s.get me).length := by rw [hlen]; exact hI
+  have hx := List.getElem?_eq_getElem hI'
+  obtain ⟨_, hinfo⟩ := stOK_get g s h.ok me I _ hx
+  have hcl : (crOf (s.get me) I).length = nActsOf g me I := by
+    rw [crOf_get _ _ _ hx]; exact hinfo.lenR
+  have hτl : (τ.at I).length = (crOf (s.get me) I).length := by rw [hcl]; exact hτ.2.1 I hI
+  have hdist : IsDist (τ.at I) := hτ.2.2 _ (at_mem (by rw [hτ.1]; exact hI))
+  have e3 : ∑ a ∈ Finset.range (nActsOf g me I), (τ.at I).getD a 0 * (crOf (s.get me) I).getD a 0
+      = dot (τ.at I) (crOf (s.get me) I) := by
+    rw [← hcl]; exact sum_range_dot _ _ hτl
+  rw [e3]
+  have h0 := histW_nonneg hτ.2.2 (hist I)
+  have h1 := histW_le_one hτ.2.2 (hist I)
+  have hd := dot_le_clamped_max (τ.at I) (crOf (s.get me) I) hdist hτl
+  have hM : 0 ≤ fmax (maxD 0 (crOf (s.get me) I)) 0 := by
+    rw [fmax_eq_max]; exact le_max_right _ _
+  calc histW τ (hist I) * dot (τ.at I) (crOf (s.get me) I)
+      ≤ histW τ (hist I) * fmax (maxD 0 (crOf (s.get me) I)) 0 :=
+        mul_le_mul_of_nonneg_left hd h0
+    _ ≤ 1 * fmax (maxD 0 (crOf (s.get me) I)) 0 := mul_le_mul_of_nonneg_right h1 hM
+    _ = fmax (maxD 0 (crOf (s.get me) I)) 0 := one_mul _
+
+/-! ## the average side -/
+
+theorem evV_view_swap (ch : List (List ℝ)) (x τ : Strat ℝ) (me : Bool) (n : Node ℝ) :
+    evV x (view ch τ (!me) n) = - evV τ (view ch x me n) := by
+  cases me
+  · rw [evV_view_neg ch x τ n]; simp
+  · exact evV_view_neg ch τ x n
+
+theorem tsum_map {β : Type} (l : List β) (f : β → Strat ℝ) (F : Strat ℝ → ℝ) :
+    tsum (l.map f) F = (l.map (fun x => F (f x))).sum := by
+  simp [tsum, List.map_map, Function.comp_def]
+
+theorem avg_at_entry (c W A S x : ℝ) (hc : c ≠ 0) (hS : S = c * W) (hx : x = c * A)
+    (h0 : S = 0 → x = 0) : (if S = 0 then (0 : ℝ) else x / S) * W = A ∨ (S = 0 ∧ W = 0 ∧ A = 0) := by
+  by_cases h : S = 0
+  · right
+    have hW : W = 0 := by
+      rw [h] at hS
+      rcases mul_eq_zero.mp hS.symm with h' | h'
+      · exact absurd h' hc
+      · exact h'
+    have hA : A = 0 := by
+      have := h0 h
+      rw [this] at hx
+      rcases mul_eq_zero.mp hx.symm with h' | h'
+      · exact absurd h' hc
+      · exact h'
+    exact ⟨h, hW, hA⟩
+  · left
+    rw [if_neg h, hx, hS]
+    have hW : W ≠ 0 := by
+      intro hW; apply h; rw [hS, hW, mul_zero]
+    field_simp
+
+/-- **the returned average strategy is the reach-weighted average of the iterates** at every
+infoset that occurs in the tree -/
+theorem avg_at (g : Game ℝ) (hg : GameWF g) (σs : List (Profile ℝ)) (s : SolveSt ℝ)
+    (h : Inv g σs s) (p : Bool) (hist : ℕ → Hist) (hpr : PR p hist [] g.root) (τ : Strat ℝ) (I : ℕ)
+    (hI : 0 < cntInfo I (view g.chance τ p g.root)) :
+    AvgAt (g.infos p).length (nActsOf g p) hist (σs.map (fun σ => σ p)) (s.avg p) I := by
+  have hlen := stOK_length g s h.ok p
+  by_cases hIN : I < (g.infos p).length
+  · have hI' : I < (s.get p).length := by rw [hlen]; exact hIN
+    have hx := List.getElem?_eq_getElem hI'
+    obtain ⟨_, hinfo⟩ := stOK_get g s h.ok p I _ hx
+    generalize (s.get p)[I] = x at hx hinfo
+    have hat : Strat.at (s.avg p) I = avgStrat x.cumStrat := by
+      simp [SolveSt.avg, Strat.at, List.getD_eq_getElem?_getD, List.getElem?_map, hx]
+    obtain ⟨_, hal⟩ := avgStrat_isDist x.cumStrat (by rw [hinfo.lenS]; exact hinfo.pos) hinfo.nonneg
+    rw [AvgAt, hat]
+    refine ⟨by rw [hal, hinfo.lenS], ?_⟩
+    intro a ha
+    -- the accumulator in closed form
+    set c : ℝ := (cntInfo I (view g.chance τ p g.root) : ℝ) with hc
+    have hcpos : c ≠ 0 := by
+      have : (0 : ℝ) < c := by rw [hc]; exact_mod_cast hI
+      exact this.ne'
+    have key : ∀ b, b < nActsOf g p I → x.cumStrat.getD b 0
+        = c * tsum (σs.map (fun σ => σ p)) (fun σ => histW σ (hist I) * (σ.at I).getD b 0) := by
+      intro b hb
+      rw [h.str p I x hx b (by rw [hinfo.lenS]; exact hb), tsum_map, ← lmsum_mul_left]
+      apply lmsum_congr
+      intro σ hσ
+      have := stratAdd_eq (g.infos p).length (nActsOf g p) hist (σ p) I b (viewOf g σ p) []
+        (viewOf_ok g hg σ (h.profs σ hσ) p) (view_PRV g.chance _ p hist g.root [] hpr)
+      rw [histW_nil] at this
+      rw [this, cntInfo_view g.chance (σ (!p)) τ p I g.root]
+    have hsumA : ∑ b ∈ Finset.range (nActsOf g p I),
+        tsum (σs.map (fun σ => σ p)) (fun σ => histW σ (hist I) * (σ.at I).getD b 0)
+        = tsum (σs.map (fun σ => σ p)) (fun σ => histW σ (hist I)) := by
+      simp only [tsum_map]
+      rw [lmsum_range]
+      apply lmsum_congr
+      intro σ hσ
+      have hs := profile_stratOK g σ (h.profs σ hσ) p
+      have h1 : ((σ p).at I).length = nActsOf g p I := hs.2.1 I hIN
+      have h2 : ((σ p).at I).sum = 1 := (hs.2.2 _ (at_mem (by rw [hs.1]; exact hIN))).2
+      rw [← Finset.mul_sum, ← h1, sum_range_getD, h2, mul_one]
+    have hS : x.cumStrat.sum
+        = c * tsum (σs.map (fun σ => σ p)) (fun σ => histW σ (hist I)) := by
+      rw [← sum_range_getD, hinfo.lenS, ← hsumA, Finset.mul_sum]
+      apply Finset.sum_congr rfl
+      intro b hb
+      exact key b (Finset.mem_range.mp hb)
+    have ha' : a < x.cumStrat.length := by rw [hinfo.lenS]; exact ha
+    have hmem : x.cumStrat.getD a 0 ∈ x.cumStrat := by
+      rw [List.getD_eq_getElem?_getD, List.getElem?_eq_getElem ha']
+      exact List.getElem_mem ha'
+    have h0 : x.cumStrat.sum = 0 → x.cumStrat.getD a 0 = 0 := by
+      intro hz
+      have h1 := mem_le_sum _ hinfo.nonneg _ hmem
+      have h2 := hinfo.nonneg _ hmem
+      rw [hz] at h1
+      exact le_antisymm h1 h2
+    have hentry : (avgStrat x.cumStrat).getD a 0
+        = if x.cumStrat.sum = 0 then 1 / (x.cumStrat.length : ℝ) else x.cumStrat.getD a 0 / x.cumStrat.sum := by
+      simp only [avgStrat, lsum_eq_sum]
+      split_ifs with h1 h2 h2
+      · simp [List.getD_eq_getElem?_getD, ha']
+      · exact absurd (by simpa using h1) h2
+      · exact absurd (by simpa using h2) h1
+      · simp [List.getD_eq_getElem?_getD, List.getElem?_map, List.getElem?_eq_getElem ha']
+    rcases avg_at_entry c _ _ _ _ hcpos hS (key a ha) h0 with hh | ⟨z1, z2, z3⟩
+    · rw [hentry]
+      by_cases hz : x.cumStrat.sum = 0
+      · rw [if_pos hz] at hh ⊢
+        rw [zero_mul] at hh
+        have hW : tsum (σs.map (fun σ => σ p)) (fun σ => histW σ (hist I)) = 0 := by
+          rw [hz] at hS
+          rcases mul_eq_zero.mp hS.symm with h' | h'
+          · exact absurd h' hcpos
+          · exact h'
+        rw [hW, mul_zero]; exact hh
+      · rw [if_neg hz] at hh ⊢
+        exact hh
+    · rw [z2, z3, mul_zero]
+  · have hge : (g.infos p).length ≤ I := not_lt.mp hIN
+    have hat : Strat.at (s.avg p) I = [] := by
+      simp [SolveSt.avg, Strat.at, List.getD_eq_getElem?_getD, hlen, hge]
+    have hn : nActsOf g p I = 0 := by
+      simp [nActsOf, List.getD_eq_getElem?_getD, hge]
+      rfl
+    rw [AvgAt, hat, hn]
+    exact ⟨rfl, fun a ha => absurd ha (Nat.not_lt_zero a)⟩
+
+/-- **average side**: against the returned average strategy of the opponent, every strategy `τ`
+earns the mean of what it earns against the opponent's iterates -/
+theorem avg_side (g : Game ℝ) (hg : GameWF g) (σs : List (Profile ℝ)) (s : SolveSt ℝ)
+    (h : Inv g σs s) (me : Bool) (τ : Strat ℝ) (hτ1 : IsStrat τ) (hτ2 : FitsGame g me τ) :
+    (σs.map (fun σ => evV τ (viewOf g σ me))).sum
+      = (σs.length : ℝ) * evV τ (view g.chance (s.avg (!me)) me g.root) := by
+  obtain ⟨hist, hpr, _⟩ := hg.recall (!me)
+  have hτ2' : FitsGame g (!(!me)) τ := by rwa [Bool.not_not]
+  have hok := view_ok g hg (!me) τ hτ1 hτ2'
+  have hprv := view_PRV g.chance τ (!me) hist g.root [] hpr
+  have hσs : ∀ σ ∈ σs.map (fun σ => σ (!me)),
+      StratOK (g.infos (!me)).length (nActsOf g (!me)) σ := by
+    intro σ hσ
+    obtain ⟨σ', hm, rfl⟩ := List.mem_map.mp hσ
+    exact profile_stratOK g σ' (h.profs σ' hm) (!me)
+  have := avg_realisation _ _ hist (σs.map (fun σ => σ (!me))) hσs (s.avg (!me)) _ hok hprv
+    (fun I hI => avg_at g hg σs s h (!me) hist hpr τ I hI)
+  rw [tsum_map, List.length_map] at this
+  have e : (σs.map (fun σ => evV (σ (!me)) (view g.chance τ (!me) g.root))).sum
+      = - (σs.map (fun σ => evV τ (viewOf g σ me))).sum := by
+    rw [← lmsum_neg]
+    apply lmsum_congr
+    intro σ _
+    exact evV_view_swap g.chance (σ (!me)) τ me g.root
+  rw [e, evV_view_swap] at this
+  linarith
+
+/-! ## the zero-sum sandwich -/
+
+/-- for each player: `T` times the best-response value against the opponent's returned average
+is at most the summed utility of the iterates plus `T/2` times the reported bound -/
+theorem br_le (g : Game ℝ) (hg : GameWF g) (σs : List (Profile ℝ)) (s : SolveSt ℝ)
+    (hne : σs ≠ []) (h : Inv g σs s) (me : Bool) :
+    (σs.length : ℝ) * optimalDeviations g me (s.avg (!me))
+      ≤ (σs.map (fun σ => evV (σ me) (viewOf g σ me))).sum
+        + (σs.length : ℝ) / 2 * boundSum σs.length (s.get me) := by
+  have hσb : ProfileOK g s.avg := fun p => stOK_avg g s h.ok p
+  obtain ⟨τ, t1, t2, e⟩ := (eval_best_response g hg s.avg hσb me).1
+  rw [utility_deviate g hg s.avg hσb me τ t1 t2] at e
+  have hT : (0 : ℝ) < (σs.length : ℝ) := by
+    have : 0 < σs.length := List.length_pos_iff.mpr hne
+    exact_mod_cast this
+  have a1 := avg_side g hg σs s h me τ t1 t2
+  have a2 := regret_side g hg σs s h me τ t1 t2
+  rw [lmsum_sub, a1] at a2
+  have a3 : clampSum (s.get me) = (σs.length : ℝ) / 2 * boundSum σs.length (s.get me) := by
+    rw [boundSum_eq]; field_simp
+  rw [e]
+  linarith
+
+/-- **the bound dominates the true regret** of the returned profile -/
+theorem bound_dominates (g : Game ℝ) (hg : GameWF g) (σs : List (Profile ℝ)) (s : SolveSt ℝ)
+    (hne : σs ≠ []) (h : Inv g σs s) :
+    (getInfo g s.avg).regret
+      ≤ max (boundSum σs.length (s.get true)) (boundSum σs.length (s.get false)) := by
+  have hσb : ProfileOK g s.avg := fun p => stOK_avg g s h.ok p
+  have hT : (0 : ℝ) < (σs.length : ℝ) := by
+    have : 0 < σs.length := List.length_pos_iff.mpr hne
+    exact_mod_cast this
+  have b1 := br_le g hg σs s hne h true
+  have b2 := br_le g hg σs s hne h false
+  have hU : (σs.map (fun σ => evV (σ false) (viewOf g σ false))).sum
+      = - (σs.map (fun σ => evV (σ true) (viewOf g σ true))).sum := by
+    rw [← lmsum_neg]
+    apply lmsum_congr
+    intro σ _
+    exact evV_view_neg g.chance (σ true) (σ false) g.root
+  rw [hU] at b2
+  have n1 := boundSum_nonneg σs.length (s.get true)
+  have n2 := boundSum_nonneg σs.length (s.get false)
+  have u1 := best_response_ge_utility g hg s.avg hσb true
+  have u2 := best_response_ge_utility g hg s.avg hσb false
+  have hu : utility g s.avg false = - utility g s.avg true := by simp [utility]
+  rw [hu] at u2
+  set B1 := optimalDeviations g true (s.avg (!true)) with hB1
+  set B2 := optimalDeviations g false (s.avg (!false)) with hB2
+  set c1 := boundSum σs.length (s.get true) with hc1
+  set c2 := boundSum σs.length (s.get false) with hc2
+  set u := utility g s.avg true with hu'
+  set U := (σs.map (fun σ => evV (σ true) (viewOf g σ true))).sum with hUU
+  set T := (σs.length : ℝ) with hTT
+  have hsum : B1 + B2 ≤ (c1 + c2) / 2 := by
+    have : T * (B1 + B2) ≤ T * ((c1 + c2) / 2) := by nlinarith
+    exact le_of_mul_le_mul_left this hT
+  have hmax : (c1 + c2) / 2 ≤ max c1 c2 := by
+    have := le_max_left c1 c2
+    have := le_max_right c1 c2
+    linarith
+  rw [eval_total_regret, eval_regret, eval_regret, hu]
+  have h0 : 0 ≤ max c1 c2 := le_trans n1 (le_max_left _ _)
+  refine max_le (max_le ?_ h0) (max_le ?_ h0) <;> linarith
+
+end
 end Cfr
